@@ -25,7 +25,15 @@
 (*   "str" (std::basic_string)  "il" (initializer_list)  "itv"/"itl"       *)
 (*   (iterator pair of a vector / list)  "ch" (one character)              *)
 (*   "obj" (the other fixed string)  "objm" (the other one as an rvalue).  *)
-(* Aliasing sources (the object itself) are outside the property.          *)
+(* Aliasing sources - the object itself is (part of) its own argument, as  *)
+(* std::basic_string allows for every one of these overloads:              *)
+(*   "self"   s.f(.., s ..)          where "obj" is allowed                *)
+(*   "selfp"  s.f(.., s.data()+off, cnt)        where "ptrn" is allowed    *)
+(*   "selfz"  s.f(.., s.c_str()+off)            where "ptr" is allowed     *)
+(*   "selfit" s.f(.., s.begin()+off, s.begin()+off+cnt)  where "itv" is    *)
+(* For these the src field of the call is the descriptor <<>>, <<off,cnt>>,*)
+(* <<off>>, <<off,cnt>>; the characters are those the object held BEFORE   *)
+(* the call (the standard: as if the argument were copied first).          *)
 (***************************************************************************)
 EXTENDS Integers, Sequences, FiniteSets, TLC, Json
 
@@ -162,10 +170,23 @@ OutcomeMv(op, k, a, big, newk, mv, okres) ==
 
 TooBig(n) == n = NPOS \/ n > Cap              \* a requested length (npos included) beyond N
 ObjKinds == {"obj", "objm"}
-SrcOK(k, sk, v) ==
-    /\ sk \in ObjKinds => v = obj[Other(k)]
-    /\ sk \in {"ptr", "str"} => NulFree(v)
-    /\ sk = "ch" => Len(v) = 1
+AliasKinds == {"self", "selfp", "selfz", "selfit"}
+(* the overload that takes kind x also takes the aliasing form of x *)
+WithAlias(S) == S \cup (IF "obj" \in S THEN {"self"} ELSE {}) \cup (IF "ptrn" \in S THEN {"selfp"} ELSE {})
+                  \cup (IF "ptr" \in S THEN {"selfz"} ELSE {}) \cup (IF "itv" \in S THEN {"selfit"} ELSE {})
+(* the characters a source denotes: w itself, or - aliasing - a part of the object's own value before the call *)
+Src(k, sk, w) ==
+    CASE sk = "self" -> obj[k]
+      [] sk \in {"selfp", "selfit"} -> SubSeq(obj[k], w[1] + 1, w[1] + w[2])
+      [] sk = "selfz" -> Before(SubSeq(obj[k], w[1] + 1, Len(obj[k])), 0)       \* a C string ends at the first NUL
+      [] OTHER -> w
+SrcOK(k, sk, w) ==
+    /\ sk \in ObjKinds => w = obj[Other(k)]
+    /\ sk \in {"ptr", "str"} => NulFree(w)
+    /\ sk = "ch" => Len(w) = 1
+    /\ sk = "self" => w = <<>>
+    /\ sk \in {"selfp", "selfit"} => Len(w) = 2 /\ w[1] \in 0..Len(obj[k]) /\ w[2] \in 0..(Len(obj[k]) - w[1])
+    /\ sk = "selfz" => Len(w) = 1 /\ w[1] \in 0..Len(obj[k])
 MvOK(k, sk, mv) == sk # "objm" => mv = obj[Other(k)]
 
 ----------------------------------------------------------------------------
@@ -192,16 +213,17 @@ Overlay(k, cells) ==
 AssignFill(k, ov, n, ch) ==
     /\ ov \in {"assign", "opch"} /\ (ov = "opch" => n = 1)
     /\ Outcome("AssignFill", k, [ov |-> ov, n |-> n, ch |-> ch], FALSE, TooBig(n), Fill(n, ch), Self)
-AssignSub(k, sk, v, p, n) ==
-    /\ sk \in {"obj", "str"} /\ SrcOK(k, sk, v)
-    /\ LET rng == Bad(p, Len(v)) IN
-       Outcome("AssignSub", k, [sk |-> sk, src |-> v, pos |-> p, n |-> n], rng,
+AssignSub(k, sk, w, p, n) ==
+    /\ sk \in WithAlias({"obj", "str"}) /\ SrcOK(k, sk, w)
+    /\ LET v == Src(k, sk, w)  rng == Bad(p, Len(v)) IN
+       Outcome("AssignSub", k, [sk |-> sk, src |-> w, pos |-> p, n |-> n], rng,
                ~rng /\ Len(Sub(v, p, Or(n, NPOS))) > Cap, Sub(v, p, Or(n, NPOS)), Self)
-AssignSeq(k, ov, sk, v, mv) ==
-    /\ ov \in {"assign", "op"} /\ SrcOK(k, sk, v) /\ MvOK(k, sk, mv)
-    /\ sk \in (IF ov = "assign" THEN {"ptrn", "ptr", "il", "itv", "itl", "str", "obj", "objm"}
-                                ELSE {"ptr", "il", "str", "obj", "objm"})
-    /\ OutcomeMv("AssignSeq", k, [ov |-> ov, sk |-> sk, src |-> v], Len(v) > Cap, v, mv, Self)
+AssignSeq(k, ov, sk, w, mv) ==
+    /\ ov \in {"assign", "op"} /\ SrcOK(k, sk, w) /\ MvOK(k, sk, mv)
+    /\ sk \in WithAlias(IF ov = "assign" THEN {"ptrn", "ptr", "il", "itv", "itl", "str", "obj", "objm"}
+                                          ELSE {"ptr", "il", "str", "obj", "objm"})
+    /\ LET v == Src(k, sk, w) IN
+       OutcomeMv("AssignSeq", k, [ov |-> ov, sk |-> sk, src |-> w], Len(v) > Cap, v, mv, Self)
 
 (* Element access.  c = 1: through a const reference to the object. *)
 At(k, c, i) ==
@@ -251,23 +273,25 @@ Resize1(k, n) ==
 Resize2(k, n, ch) ==
     Outcome("Resize2", k, [n |-> n, ch |-> ch], FALSE, TooBig(n), ResizeSeq(obj[k], n, ch), Void)
 Swap(k, ov) ==
-    /\ ov \in {"member", "free"}
-    /\ Do2("Swap", k, [ov |-> ov], obj[Other(k)], obj[k], Void)
+    \/ /\ ov \in {"member", "free"}
+       /\ Do2("Swap", k, [ov |-> ov], obj[Other(k)], obj[k], Void)
+    \/ /\ ov \in {"memberself", "freeself"}                      \* s.swap(s), swap(s, s): nothing changes
+       /\ Mut("Swap", k, [ov |-> ov], obj[k], Void)
 
 (* insert *)
 InsertFill(k, idx, n, ch) ==
     LET s == obj[k] IN
     Outcome("InsertFill", k, [idx |-> idx, n |-> n, ch |-> ch], Bad(idx, Len(s)), Len(s) + n > Cap,
             Ins(s, idx, Fill(n, ch)), Self)
-InsertSeq(k, idx, sk, v) ==
-    /\ sk \in {"ptr", "ptrn", "obj", "str"} /\ SrcOK(k, sk, v)
-    /\ LET s == obj[k] IN
-       Outcome("InsertSeq", k, [idx |-> idx, sk |-> sk, src |-> v], Bad(idx, Len(s)), Len(s) + Len(v) > Cap,
+InsertSeq(k, idx, sk, w) ==
+    /\ sk \in WithAlias({"ptr", "ptrn", "obj", "str"}) /\ SrcOK(k, sk, w)
+    /\ LET s == obj[k]  v == Src(k, sk, w) IN
+       Outcome("InsertSeq", k, [idx |-> idx, sk |-> sk, src |-> w], Bad(idx, Len(s)), Len(s) + Len(v) > Cap,
                Ins(s, idx, v), Self)
-InsertSub(k, idx, sk, v, p, n) ==
-    /\ sk \in {"obj", "str"} /\ SrcOK(k, sk, v)
-    /\ LET s == obj[k]  badp == Bad(p, Len(v)) IN
-       Outcome("InsertSub", k, [idx |-> idx, sk |-> sk, src |-> v, pos |-> p, n |-> n],
+InsertSub(k, idx, sk, w, p, n) ==
+    /\ sk \in WithAlias({"obj", "str"}) /\ SrcOK(k, sk, w)
+    /\ LET s == obj[k]  v == Src(k, sk, w)  badp == Bad(p, Len(v)) IN
+       Outcome("InsertSub", k, [idx |-> idx, sk |-> sk, src |-> w, pos |-> p, n |-> n],
                Bad(idx, Len(s)) \/ badp, ~badp /\ Len(s) + Len(Sub(v, p, Or(n, NPOS))) > Cap,
                Ins(s, idx, Sub(v, p, Or(n, NPOS))), Self)
 (* iterator forms; the position may be end() *)
@@ -276,10 +300,11 @@ InsertIt(k, ov, it, n, ch) ==
     /\ it \in 0..Len(obj[k])
     /\ Outcome("InsertIt", k, [ov |-> ov, it |-> it, n |-> n, ch |-> ch], FALSE, Len(obj[k]) + n > Cap,
                Ins(obj[k], it, Fill(n, ch)), It(it))
-InsertItSeq(k, it, sk, v) ==
-    /\ sk \in {"il", "itv", "itl"}
+InsertItSeq(k, it, sk, w) ==
+    /\ sk \in WithAlias({"il", "itv", "itl"}) /\ SrcOK(k, sk, w)
     /\ it \in 0..Len(obj[k])
-    /\ Outcome("InsertItSeq", k, [it |-> it, sk |-> sk, src |-> v], FALSE, Len(obj[k]) + Len(v) > Cap,
+    /\ LET v == Src(k, sk, w) IN
+       Outcome("InsertItSeq", k, [it |-> it, sk |-> sk, src |-> w], FALSE, Len(obj[k]) + Len(v) > Cap,
                Ins(obj[k], it, v), It(it))
 
 (* erase *)
@@ -296,51 +321,54 @@ EraseRange(k, f, l) ==
 (* append, operator+= *)
 AppendFill(k, n, ch) ==
     Outcome("AppendFill", k, [n |-> n, ch |-> ch], FALSE, Len(obj[k]) + n > Cap, obj[k] \o Fill(n, ch), Self)
-AppendSeq(k, ov, sk, v) ==
-    /\ ov \in {"append", "op"} /\ SrcOK(k, sk, v)
-    /\ sk \in (IF ov = "append" THEN {"obj", "str", "ptrn", "ptr", "il", "itv", "itl"} ELSE {"obj", "str", "ptr", "il"})
-    /\ Outcome("AppendSeq", k, [ov |-> ov, sk |-> sk, src |-> v], FALSE, Len(obj[k]) + Len(v) > Cap, obj[k] \o v, Self)
-AppendSub(k, sk, v, p, n) ==
-    /\ sk \in {"obj", "str"} /\ SrcOK(k, sk, v)
-    /\ LET rng == Bad(p, Len(v)) IN
-       Outcome("AppendSub", k, [sk |-> sk, src |-> v, pos |-> p, n |-> n], rng,
+AppendSeq(k, ov, sk, w) ==
+    /\ ov \in {"append", "op"} /\ SrcOK(k, sk, w)
+    /\ sk \in WithAlias(IF ov = "append" THEN {"obj", "str", "ptrn", "ptr", "il", "itv", "itl"} ELSE {"obj", "str", "ptr", "il"})
+    /\ LET v == Src(k, sk, w) IN
+       Outcome("AppendSeq", k, [ov |-> ov, sk |-> sk, src |-> w], FALSE, Len(obj[k]) + Len(v) > Cap, obj[k] \o v, Self)
+AppendSub(k, sk, w, p, n) ==
+    /\ sk \in WithAlias({"obj", "str"}) /\ SrcOK(k, sk, w)
+    /\ LET v == Src(k, sk, w)  rng == Bad(p, Len(v)) IN
+       Outcome("AppendSub", k, [sk |-> sk, src |-> w, pos |-> p, n |-> n], rng,
                ~rng /\ Len(obj[k]) + Len(Sub(v, p, Or(n, NPOS))) > Cap, obj[k] \o Sub(v, p, Or(n, NPOS)), Self)
 
 (* compare: only the sign of the result is specified *)
 Sign(x) == [sign |-> x]
-Compare(k, sk, v) ==
-    /\ sk \in {"obj", "str", "ptr"} /\ SrcOK(k, sk, v)
-    /\ Obs("Compare", k, [sk |-> sk, src |-> v], Ok(Sign(Cmp(obj[k], v))))
-Compare1(k, p1, n1, sk, v) ==          \* (pos1, count1, str) / (pos1, count1, s) / (pos1, count1, s, count2)
-    /\ sk \in {"obj", "str", "ptr", "ptrn"} /\ SrcOK(k, sk, v)
-    /\ Obs("Compare1", k, [pos1 |-> p1, n1 |-> n1, sk |-> sk, src |-> v],
-           IF Bad(p1, Len(obj[k])) THEN Exc("out_of_range") ELSE Ok(Sign(Cmp(Sub(obj[k], p1, n1), v))))
-Compare2(k, p1, n1, sk, v, p2, n2) ==
-    /\ sk \in {"obj", "str"} /\ SrcOK(k, sk, v)
-    /\ Obs("Compare2", k, [pos1 |-> p1, n1 |-> n1, sk |-> sk, src |-> v, pos2 |-> p2, n2 |-> n2],
+Compare(k, sk, w) ==
+    /\ sk \in WithAlias({"obj", "str", "ptr"}) /\ SrcOK(k, sk, w)
+    /\ Obs("Compare", k, [sk |-> sk, src |-> w], Ok(Sign(Cmp(obj[k], Src(k, sk, w)))))
+Compare1(k, p1, n1, sk, w) ==          \* (pos1, count1, str) / (pos1, count1, s) / (pos1, count1, s, count2)
+    /\ sk \in WithAlias({"obj", "str", "ptr", "ptrn"}) /\ SrcOK(k, sk, w)
+    /\ Obs("Compare1", k, [pos1 |-> p1, n1 |-> n1, sk |-> sk, src |-> w],
+           IF Bad(p1, Len(obj[k])) THEN Exc("out_of_range") ELSE Ok(Sign(Cmp(Sub(obj[k], p1, n1), Src(k, sk, w)))))
+Compare2(k, p1, n1, sk, w, p2, n2) ==
+    /\ sk \in WithAlias({"obj", "str"}) /\ SrcOK(k, sk, w)
+    /\ LET v == Src(k, sk, w) IN
+       Obs("Compare2", k, [pos1 |-> p1, n1 |-> n1, sk |-> sk, src |-> w, pos2 |-> p2, n2 |-> n2],
            IF Bad(p1, Len(obj[k])) \/ Bad(p2, Len(v)) THEN Exc("out_of_range")
            ELSE Ok(Sign(Cmp(Sub(obj[k], p1, n1), Sub(v, p2, Or(n2, NPOS))))))
 
 (* replace *)
-Replace(k, p, n, sk, v) ==
-    /\ sk \in {"obj", "str", "ptrn", "ptr"} /\ SrcOK(k, sk, v)
-    /\ LET s == obj[k]  rng == Bad(p, Len(s)) IN
-       Outcome("Replace", k, [pos |-> p, n |-> n, sk |-> sk, src |-> v], rng,
+Replace(k, p, n, sk, w) ==
+    /\ sk \in WithAlias({"obj", "str", "ptrn", "ptr"}) /\ SrcOK(k, sk, w)
+    /\ LET s == obj[k]  v == Src(k, sk, w)  rng == Bad(p, Len(s)) IN
+       Outcome("Replace", k, [pos |-> p, n |-> n, sk |-> sk, src |-> w], rng,
                ~rng /\ Len(Repl(s, p, n, v)) > Cap, Repl(s, p, n, v), Self)
-ReplaceSub(k, p, n, sk, v, p2, n2) ==
-    /\ sk \in {"obj", "str"} /\ SrcOK(k, sk, v)
-    /\ LET s == obj[k]  rng == Bad(p, Len(s)) \/ Bad(p2, Len(v)) IN
-       Outcome("ReplaceSub", k, [pos |-> p, n |-> n, sk |-> sk, src |-> v, pos2 |-> p2, n2 |-> n2], rng,
+ReplaceSub(k, p, n, sk, w, p2, n2) ==
+    /\ sk \in WithAlias({"obj", "str"}) /\ SrcOK(k, sk, w)
+    /\ LET s == obj[k]  v == Src(k, sk, w)  rng == Bad(p, Len(s)) \/ Bad(p2, Len(v)) IN
+       Outcome("ReplaceSub", k, [pos |-> p, n |-> n, sk |-> sk, src |-> w, pos2 |-> p2, n2 |-> n2], rng,
                ~rng /\ Len(Repl(s, p, n, Sub(v, p2, Or(n2, NPOS)))) > Cap, Repl(s, p, n, Sub(v, p2, Or(n2, NPOS))), Self)
 ReplaceFill(k, p, n, n2, ch) ==
     LET s == obj[k]  rng == Bad(p, Len(s)) IN
     Outcome("ReplaceFill", k, [pos |-> p, n |-> n, n2 |-> n2, ch |-> ch], rng,
             ~rng /\ Len(Repl(s, p, n, Fill(n2, ch))) > Cap, Repl(s, p, n, Fill(n2, ch)), Self)
 (* iterator forms; the range [f, l) may be empty *)
-ReplaceIt(k, f, l, sk, v) ==
-    /\ sk \in {"obj", "str", "ptrn", "ptr", "il", "itv", "itl"} /\ SrcOK(k, sk, v)
+ReplaceIt(k, f, l, sk, w) ==
+    /\ sk \in WithAlias({"obj", "str", "ptrn", "ptr", "il", "itv", "itl"}) /\ SrcOK(k, sk, w)
     /\ f \in 0..Len(obj[k]) /\ l \in f..Len(obj[k])
-    /\ Outcome("ReplaceIt", k, [f |-> f, l |-> l, sk |-> sk, src |-> v], FALSE,
+    /\ LET v == Src(k, sk, w) IN
+       Outcome("ReplaceIt", k, [f |-> f, l |-> l, sk |-> sk, src |-> w], FALSE,
                Len(obj[k]) - (l - f) + Len(v) > Cap, Repl(obj[k], f, l - f, v), Self)
 ReplaceItFill(k, f, l, n2, ch) ==
     /\ f \in 0..Len(obj[k]) /\ l \in f..Len(obj[k])
@@ -348,18 +376,19 @@ ReplaceItFill(k, f, l, n2, ch) ==
                Len(obj[k]) - (l - f) + n2 > Cap, Repl(obj[k], f, l - f, Fill(n2, ch)), Self)
 
 (* search: six families x five overloads; p = DFLT is the call without a position *)
-Find(k, fam, sk, v, p) ==
-    /\ fam \in FindFams /\ sk \in {"obj", "str", "ptrn", "ptr", "ch"} /\ SrcOK(k, sk, v)
-    /\ sk = "ptrn" => p # DFLT                 \* (s, pos, count) has no default
-    /\ Obs("Find", k, [fam |-> fam, sk |-> sk, src |-> v, pos |-> p],
-           Ok([pos |-> FindRes(fam, obj[k], v, Or(p, FindDefault(fam)))]))
+Find(k, fam, sk, w, p) ==
+    /\ fam \in FindFams /\ sk \in WithAlias({"obj", "str", "ptrn", "ptr", "ch"}) /\ SrcOK(k, sk, w)
+    /\ sk \in {"ptrn", "selfp"} => p # DFLT       \* (s, pos, count) has no default
+    /\ Obs("Find", k, [fam |-> fam, sk |-> sk, src |-> w, pos |-> p],
+           Ok([pos |-> FindRes(fam, obj[k], Src(k, sk, w), Or(p, FindDefault(fam)))]))
 
 (* relational operators; "ptrL"/"strL": the fixed string is the right operand *)
-Rel(k, rop, sk, v) ==
-    /\ rop \in RelOps /\ sk \in {"obj", "ptr", "ptrL", "str", "strL"}
-    /\ sk = "obj" => v = obj[Other(k)]
-    /\ sk # "obj" => NulFree(v)
-    /\ Obs("Rel", k, [rop |-> rop, sk |-> sk, src |-> v],
+Rel(k, rop, sk, w) ==
+    /\ rop \in RelOps /\ sk \in {"obj", "ptr", "ptrL", "str", "strL", "self", "selfz"}
+    /\ sk \in {"ptrL", "strL"} => NulFree(w)
+    /\ SrcOK(k, sk, w)
+    /\ LET v == Src(k, sk, w) IN
+       Obs("Rel", k, [rop |-> rop, sk |-> sk, src |-> w],
            Ok([b |-> IF sk \in {"ptrL", "strL"} THEN RelRes(rop, v, obj[k]) ELSE RelRes(rop, obj[k], v)]))
 
 (* operator+ : left operand obj[k] ("self", "selfm" = as rvalue) or a C string / character;     *)
@@ -367,16 +396,16 @@ Rel(k, rop, sk, v) ==
 (* except that an operand passed as an rvalue is afterwards in a valid but unspecified state.    *)
 ConcatCombos == {<<"self", "obj">>, <<"self", "ptr">>, <<"self", "ch">>, <<"ptr", "obj">>, <<"ch", "obj">>,
                  <<"selfm", "obj">>, <<"self", "objm">>, <<"selfm", "objm">>, <<"selfm", "ptr">>, <<"selfm", "ch">>,
-                 <<"ptr", "objm">>, <<"ch", "objm">>}
+                 <<"ptr", "objm">>, <<"ch", "objm">>, <<"self", "self">>}        \* the last one: s + s
 Concat(k, lk, rk, v, mvk, mvo) ==
     /\ <<lk, rk>> \in ConcatCombos
     /\ NulFree(v)
     /\ (lk = "ch" \/ rk = "ch") => Len(v) = 1
-    /\ (lk \in {"self", "selfm"} /\ rk \in {"obj", "objm"}) => v = <<>>
+    /\ (lk \in {"self", "selfm"} /\ rk \in {"obj", "objm", "self"}) => v = <<>>
     /\ lk # "selfm" => mvk = obj[k]
     /\ rk # "objm" => mvo = obj[Other(k)]
     /\ LET lv == IF lk \in {"self", "selfm"} THEN obj[k] ELSE v
-           rv == IF rk \in {"obj", "objm"} THEN obj[Other(k)] ELSE v
+           rv == IF rk \in {"obj", "objm"} THEN obj[Other(k)] ELSE IF rk = "self" THEN obj[k] ELSE v
            a  == [lk |-> lk, rk |-> rk, src |-> v]
        IN \/ Len(lv \o rv) > Cap /\ Throwing /\ Obs("Concat", k, a, Exc("length_error"))
           \/ Len(lv \o rv) <= Cap /\ MovedOK(mvk) /\ MovedOK(mvo) /\ Do2("Concat", k, a, mvk, mvo, Ok(StrVal(lv \o rv)))
@@ -409,6 +438,13 @@ Lit(sk)  == IF sk \in {"ptr", "str", "ptrL", "strL"} THEN NFLits ELSE Lits
 (* sources for a set of kinds: the other object for obj kinds, every literal for the others *)
 Srcs(k, kinds) == {<<sk, v>> \in kinds \X (Lits \cup {O(k)}) :
                       IF sk \in ObjKinds THEN v = O(k) ELSE v \in Lit(sk)}
+
+(* aliasing sources of object k: <<kind, descriptor>> for every part of its current value *)
+ASrcs(k, kinds) ==
+    LET n == Len(obj[k]) IN
+      (IF "self" \in kinds THEN {<<"self", <<>>>>} ELSE {})
+      \cup UNION {{<<sk, <<off, cnt>>>> : cnt \in 0..(n - off)} : sk \in kinds \cap {"selfp", "selfit"}, off \in 0..n}
+      \cup {<<"selfz", <<off>>>> : off \in (IF "selfz" \in kinds THEN 0..n ELSE {})}
 
 (* the object the model checker does not operate on starts with one of the values OtherInit *)
 InitOther == IF OtherInit = {} THEN {<<>>} ELSE OtherInit
@@ -476,6 +512,17 @@ NextT(k) ==
     \/ C("io") /\ (ToStd(k) \/ StreamOut(k))
     \/ C("io") /\ \E v \in NFLits : StreamIn(k, v) \/ (\E d \in {DFLT, 2}, rv \in {0, 1} : GetLine(k, v, d, rv))
     \/ C("overlay") /\ \E cells \in [1..(Cap + 1) -> Chars] : Overlay(k, cells)
+    \/ C("alias") /\ \E p \in PosDom, n \in PosD : AssignSub(k, "self", <<>>, p, n) \/ AppendSub(k, "self", <<>>, p, n)
+    \/ C("alias") /\ \E ov \in {"assign", "op"}, x \in ASrcs(k, AliasKinds) : AssignSeq(k, ov, x[1], x[2], O(k)) \/ AppendSeq(k, ov, x[1], x[2])
+    \/ C("alias") /\ \E idx \in PosDom, x \in ASrcs(k, {"self", "selfp", "selfz"}) : InsertSeq(k, idx, x[1], x[2])
+    \/ C("alias") /\ \E idx \in PosDom, q \in SubDom : InsertSub(k, idx, "self", <<>>, q[1], q[2])
+    \/ C("alias") /\ \E it \in Its(k), x \in ASrcs(k, {"selfit"}) : InsertItSeq(k, it, x[1], x[2])
+    \/ C("alias") /\ \E x \in ASrcs(k, {"self", "selfz"}) : Compare(k, x[1], x[2]) \/ (\E rop \in RelOps : Rel(k, rop, x[1], x[2]))
+    \/ C("alias") /\ \E p \in PosDom, n \in PosDom, x \in ASrcs(k, {"self", "selfp", "selfz"}) : Compare1(k, p, n, x[1], x[2]) \/ Replace(k, p, n, x[1], x[2])
+    \/ C("alias") /\ \E p \in PosDom, n \in PosDom, q \in SubDom : Compare2(k, p, n, "self", <<>>, q[1], q[2]) \/ ReplaceSub(k, p, n, "self", <<>>, q[1], q[2])
+    \/ C("alias") /\ \E r \in Ranges(k), x \in ASrcs(k, AliasKinds) : ReplaceIt(k, r[1], r[2], x[1], x[2])
+    \/ C("alias") /\ \E fam \in FindFams, p \in PosD, x \in ASrcs(k, {"self", "selfp", "selfz"}) : Find(k, fam, x[1], x[2], p)
+    \/ C("alias") /\ (Concat(k, "self", "self", <<>>, obj[k], O(k)) \/ \E ov \in {"memberself", "freeself"} : Swap(k, ov))
     \/ C("nav") /\ \E v \in Strs(Cap) : Storable(v) /\ Mut("Nav", k, NoArg, v, Void)   \* not a call: lets the model checker
                                                                                     \* reach every value (never emitted)
 
